@@ -147,6 +147,8 @@ def check(index, ctx):
             else:
                 st = [e for e in _pipe.evs(res, "pack") if e["fn"] == "stack" and not _pipe.in_stage(e)]
                 z = [c for c in _pipe.evs(res, "create") if c["fn"] == "zeros_like" and c["like"] == ["features"]]
+                # (rows scattered into a pre-allocated zeros((n,) + key.shape) buffer: the rows never written are the zeros)
+                z = z or [e for e in st if e.get("scatter")]
                 ctx.require(bool(st) and all(e["dim"] == 0 for e in st) and (bool(z) or run.variant.get("single")), "I", "Stack: per-key gradients stacked along dim 0, zeros where a key is absent",
                             "stack(dim=0) + zeros_like", f"stack dims {[e['dim'] for e in st]}, zero fill sites {len(z)}", st[0]["loc"] if st else "")
                 ones = [c for c in _pipe.evs(res, "create") if c["fn"] == "ones_like" and c["like"] == ["losses[i]"]]
